@@ -42,11 +42,11 @@ IdentsQuick == {<<97>>, <<98, 32, 64>>, <<64, 99>>}       \* "a", "b @", "@c"
 ValuesQuick == {<<<<65, 67, 71>>, <<AT, PLUS, AT>>>>,
                 <<<<71, 65, 84, 84, 65>>, <<73, AT, PLUS, 73, AT>>>>,
                 <<<<65, 67>>, <<73>>>>}
-ValuesThorough == ValuesQuick \cup {<<<<65>>, <<AT>>>>, <<<<65, 67>>, <<PLUS, AT>>>>,
+ValuesThorough == ValuesQuick \cup {<<<<65>>, <<AT>>>>,
                                     <<<<65, 67, 71, 84>>, <<PLUS, PLUS, AT, AT>>>>,
                                     <<<<84, 84, 84, 84, 84, 84, 84>>, <<AT, 73, AT, 73, PLUS, 73, AT>>>>}
 CfgsQuick == {<<33, 2>>, <<64, 0>>}
-CfgsThorough == {<<33, 0>>, <<33, 1>>, <<33, 2>>, <<64, 0>>, <<64, 3>>}
+CfgsThorough == {<<33, 0>>, <<33, 1>>, <<64, 3>>}
 
 (* ---------------------------------------------------------------- properties *)
 InvIndex ==
